@@ -369,7 +369,7 @@ def stack_words(m):
     return [(s, ''.join(ks)) for s in dyck_shapes(m) for ks in itertools.product('hbv', repeat=m)]
 
 
-def stack_block(w, variant):
+def stack_block(w, variant, ns='hex'):
     shape, kinds = variant['shape'], variant['kinds']
     m = len(kinds)
     full = variant.get('full', False)
@@ -432,7 +432,10 @@ def stack_block(w, variant):
                     srcs.append(LDom.one({'h': fixed, 'b': fixedb, 'v': fixedv}[k][i % 4]))
             u.append(srcs + dsts + tailp)
         return u
-    return mk('stack', dict(variant, tag=f'{shape.replace("(", "U").replace(")", "D")}_{kinds}'), w, 'hex', code, pv, spec_of, udom_of,
+    if 'cap' in variant:
+        assert maxdepth <= variant['cap'], (shape, kinds, maxdepth)     # the documentation leaves overflow undefined ("@Assumes: stack has room")
+    ctag = f'cap{variant["cap"]}_' if 'cap' in variant else ''
+    return mk('stack', dict(variant, tag=f'{ctag}{shape.replace("(", "U").replace(")", "D")}_{kinds}'), w, ns, code, pv, spec_of, udom_of,
               'stack', scratch_ops=[('hex.pointers.stack', 1, maxdepth, 'byte')],
               title='stack word ' + ' ; '.join(c.replace('@', '') for c in code))
 
@@ -492,15 +495,25 @@ SHARED = {
     'mixed': ([('FCall', 0), ('Call', 1), ('FCall', 0), ('Mark', 0x2E)],
               [[('Mark', 0x61), ('Call', 1), ('Mark', 0x41)], [('Mark', 0x62)]], 'fc'),
     'params': ([('CallP', 0, 2), ('Mark', 0x2E), ('CallP', 0, 2), ('Mark', 0x2E)], [[('Mark', 0x61), ('Call', 1)], [('Mark', 0x62)]], 'pc'),
+    # nestings whose maximal stack depth is exactly 5 / 4 cells (return addresses and pushed parameters): run with a stack of capacity 5
+    'deep5': ([('Call', 0), ('Mark', 0x2E)],
+              [[('Mark', 0x61), ('Call', 1), ('Mark', 0x41)], [('Mark', 0x62), ('Call', 2), ('Mark', 0x42)],
+               [('Mark', 0x63), ('Call', 3), ('Mark', 0x43)], [('Mark', 0x64), ('Call', 4), ('Mark', 0x44)], [('Mark', 0x65)]], 'ccccc'),
+    'deep4': ([('Call', 0), ('Mark', 0x2E), ('Call', 3), ('Mark', 0x2E)],
+              [[('Mark', 0x61), ('Call', 1), ('Mark', 0x41)], [('Mark', 0x62), ('Call', 2), ('Mark', 0x42)],
+               [('Mark', 0x63), ('Call', 3), ('Mark', 0x43)], [('Mark', 0x64)]], 'cccc'),
+    'deep3p2': ([('Call', 0), ('Mark', 0x2E)],
+                [[('Mark', 0x61), ('FCall', 1), ('Mark', 0x41)], [('Mark', 0x62), ('Call', 2), ('Mark', 0x42)],
+                 [('Mark', 0x63), ('CallP', 3, 2), ('Mark', 0x43)], [('Mark', 0x64)]], 'cfcp'),
     # stl.call f, 0 = call + hex.sp_sub 0: did not assemble before the fix of hex.sub_constant (F27); regression probe
     'params0': ([('CallP', 0, 0), ('Mark', 0x2E), ('CallP', 0, 3), ('Mark', 0x2E)], [[('Mark', 0x61)]], 'p'),
 }
 
 
-def calls_block(w, variant):
+def calls_block(w, variant, ns='hex'):
     if 'shared' in variant:
         main, fs, conv = SHARED[variant['shared']]
-        tag = variant['shared']
+        tag = (f'cap{variant["cap"]}_' if 'cap' in variant else '') + variant['shared']
     else:
         forest = forests(variant['n'])[variant['i']]
         main, fs, conv = tree_program(forest, variant['conv'])
@@ -530,7 +543,7 @@ def calls_block(w, variant):
         if cv == 'f':
             tail.append(f'@r{i}: bit.bit')
     trace = SP.call_trace(16, fs, main)
-    depth = 8
+    depth = variant.get('cap', 8)       # stack cells treated as operand + scratch: never beyond the declared capacity
     pv = [PV('a', 'hex', 2), PV('sp', 'hex', w // 4, label='hex.pointers.sp', rel=('hex.pointers.stack',)),
           PV('stk', 'byte', depth, label='hex.pointers.stack', op_off=1)]
 
@@ -555,7 +568,7 @@ def calls_block(w, variant):
         return (f'(* the marker sequence of exit 0 is the trace of the abstract call tree *)\n'
                 f'Example {tn}_trace : map snd (b_exits b{b.k}) = [call_trace 16 {fs_coq} {main_coq}].\n'
                 f'Proof. vm_compute. reflexivity. Qed.')
-    b = mk('calls', dict(variant, tag=tag), w, 'hex', code, pv, spec_of, udom_of, 'calls', tail=tail, markers=[trace],
+    b = mk('calls', dict(variant, tag=tag), w, ns, code, pv, spec_of, udom_of, 'calls', tail=tail, markers=[trace],
            scratch_ops=[('hex.pointers.stack', 1, depth, 'byte')], extra_thm=[trace_thm],
            title=f'call tree {tag}: main = {main_coq}; functions = {fs_coq} (conventions {"".join(conv)})')
     if any(it[0] == 'CallP' and it[2] == 0 for body in [main] + list(fs) for it in body):
@@ -779,6 +792,34 @@ for _nm, _file, _sig in (('stl.call/params', PL, 'def call address, params_stack
     TABLE.append(dict(name=_nm, ns='hex', file=_file, sig=_sig, build=lambda ctx, w: [], spec_name='call_trace',
                       note='covered by the blocks of "calls"'))
 
+# ---- the stack filled up to EXACTLY its declared capacity (image group with `stl.startup_and_init_all 5`: stack_init 5)
+CAP = 5
+NEST = lambda m: '(' * m + ')' * m   # noqa: E731
+
+
+def cap_stack_variants(tier, w):
+    """maximal depth in cells = CAP (hexes, bytes, vectors: a vector of 3 hexes takes 2 cells) and CAP-1; overflow (CAP+1) is left out:
+    the documentation leaves it undefined (stack.fj / ptrlib.fj: "@Assumes: stack has room (caller-side responsibility)")"""
+    if tier == 'quick':
+        ws = {32: [(NEST(5), 'hhhhh'), (NEST(3), 'vvh'), (NEST(4), 'bbbb')], 64: [(NEST(5), 'bbbbb')]}[w]
+    else:
+        ws = [(NEST(5), 'hhhhh'), (NEST(5), 'bbbbb'), (NEST(5), 'bhbhb'), (NEST(3), 'vvh'), (NEST(3), 'hvv'), (NEST(3), 'vbv'),
+              ('((((()()))))', 'hbhbhb'), (NEST(4), 'hhhh'), (NEST(4), 'bbbb'), (NEST(2), 'vv'), (NEST(3), 'vhb')]
+    return [{'shape': sh, 'kinds': ks, 'full': False, 'cap': CAP} for sh, ks in ws]
+
+
+def cap_calls_variants(tier, w):
+    names = ['deep5', 'deep4', 'deep3p2'] if (tier == 'thorough' or w == 32) else ['deep5']
+    return [{'shared': k, 'cap': CAP} for k in names]
+
+
+E('stack at capacity', BP, 'def stack_init n @ stack_error_handler > sp, stack', lambda w, v: stack_block(w, v, 'hexcap'), cap_stack_variants,
+  ns='hexcap', spec_name='stack_word', qw=(32, 64),
+  note=f'stack declared with capacity {CAP}: balanced words whose maximal depth is exactly {CAP} and {CAP - 1} cells')
+E('calls at capacity', PL, 'def stack_init n', lambda w, v: calls_block(w, v, 'hexcap'), cap_calls_variants, ns='hexcap',
+  spec_name='calls_keep + call_trace', qw=(32, 64),
+  note=f'stack declared with capacity {CAP}: call nestings (return addresses + pushed parameters) of depth exactly {CAP} and {CAP - 1}')
+
 # ---- ordered pairs
 for _p in PAIRS:
     E('pair ' + _p, RP, 'def read_hex dst, ptr', lambda w, v, _p=_p: pair_block(_p, w, v),
@@ -821,8 +862,10 @@ E('bit.pointers.set_jump_pointer', BT, 'def set_jump_pointer ptr',
 
 
 CFG = SP.Config(prop='C08', table=TABLE,
-                widths={'hex': {'quick': [64, 32], 'thorough': [64, 32]}, 'bit': {'quick': [64, 16], 'thorough': [64, 32, 16]}},
-                startup={'hex': 'stl.startup_and_init_all', 'bit': 'stl.startup c08_code\nbit.pointers.ptr_init\nc08_code:'},
+                widths={'hex': {'quick': [64, 32], 'thorough': [64, 32]}, 'bit': {'quick': [64, 16], 'thorough': [64, 32, 16]},
+                        'hexcap': {'quick': [64, 32], 'thorough': [64, 32]}},
+                startup={'hex': 'stl.startup_and_init_all', 'bit': 'stl.startup c08_code\nbit.pointers.ptr_init\nc08_code:',
+                         'hexcap': f'stl.startup_and_init_all {CAP}'},
                 builders=BUILDERS)
 
 
